@@ -12,7 +12,9 @@ EXTENDS Naturals, Sequences, FiniteSets, SequencesExt, TLC
 CONSTANTS MaxRecords,      \* send_record calls
           MaxManip,        \* adversary operations
           MaxReads,        \* receive_record() calls (queue mode)
-          ConsumerMode     \* BOOLEAN: the receiver attached a consumer expecting all MaxRecords records
+          ConsumerMode,    \* BOOLEAN: the receiver attached a consumer expecting all MaxRecords records
+          Mixed            \* BOOLEAN: the receiver reads single records and, in between, attaches consumers that expect the bytes of
+                           \* the next k records (k = 0: an empty file) - what a file transfer does with the connection
 
 VARIABLES sent,        \* payload ids passed to send_record, in order
           wire,        \* frames in flight: [nonce, pay, auth, len]  auth: authenticates under the receiver's key
@@ -26,15 +28,18 @@ VARIABLES sent,        \* payload ids passed to send_record, in order
           desync,      \* a length prefix was altered: the receiver's framing no longer matches the sender's
           manip,       \* operations used
           tampered,    \* some frame at or before the receiver's position was manipulated
-          consumerDone,\* "-" | "ok" | "err"
+          consumerDone,\* "-" | "ok" | "err"   (Mixed: of the consumer attached last)
+          cattached,   \* Mixed: a consumer is attached ...
+          cleft,       \* ... and still expects the bytes of this many records
           last
-vars == <<sent, wire, sendNonce, nextNonce, delivered, queued, reads, failedReads, rstate, desync, manip, tampered, consumerDone, last>>
+vars == <<sent, wire, sendNonce, nextNonce, delivered, queued, reads, failedReads, rstate, desync, manip, tampered, consumerDone,
+          cattached, cleft, last>>
 
 Frame(n, p, a) == [nonce |-> n, pay |-> p, auth |-> a, len |-> "ok"]
 
 Init == /\ sent = <<>> /\ wire = <<>> /\ sendNonce = 0 /\ nextNonce = 0 /\ delivered = <<>> /\ queued = <<>>
         /\ reads = 0 /\ failedReads = 0 /\ rstate = "records" /\ desync = FALSE /\ manip = 0 /\ tampered = FALSE
-        /\ consumerDone = "-" /\ last = <<"Init", 0, "-">>
+        /\ consumerDone = "-" /\ cattached = FALSE /\ cleft = 0 /\ last = <<"Init", 0, "-">>
 
 \* ---- sender -------------------------------------------------------------------------------------
 Send == /\ Len(sent) < MaxRecords
@@ -43,7 +48,7 @@ Send == /\ Len(sent) < MaxRecords
         /\ wire' = IF rstate = "lost" THEN wire ELSE Append(wire, Frame(sendNonce, Len(sent) + 1, TRUE))
         /\ sendNonce' = sendNonce + 1
         /\ last' = <<"Send", Len(sent) + 1, "-">>
-        /\ UNCHANGED <<nextNonce, delivered, queued, reads, failedReads, rstate, desync, manip, tampered, consumerDone>>
+        /\ UNCHANGED <<nextNonce, delivered, queued, reads, failedReads, rstate, desync, manip, tampered, consumerDone, cattached, cleft>>
 
 \* ---- adversary ------------------------------------------------------------------------------------
 CanManip == manip < MaxManip /\ rstate # "lost"
@@ -55,30 +60,31 @@ Flip(i, where) == /\ CanManip /\ i \in 1..Len(wire)
                        /\ (where # "nonce") => n2 = wire[i].nonce
                        /\ wire' = [wire EXCEPT ![i] = IF where = "len" THEN [@ EXCEPT !.len = "bad"] ELSE [@ EXCEPT !.auth = FALSE, !.nonce = n2]]
                   /\ manip' = manip + 1 /\ last' = <<"Flip", i, where>>
-                  /\ UNCHANGED <<sent, sendNonce, nextNonce, delivered, queued, reads, failedReads, rstate, desync, tampered, consumerDone>>
+                  /\ UNCHANGED <<sent, sendNonce, nextNonce, delivered, queued, reads, failedReads, rstate, desync, tampered, consumerDone, cattached, cleft>>
 Delete(i) == /\ CanManip /\ i \in 1..Len(wire)
              /\ wire' = SubSeq(wire, 1, i - 1) \o SubSeq(wire, i + 1, Len(wire))
              /\ manip' = manip + 1 /\ last' = <<"Delete", i, "-">>
-             /\ UNCHANGED <<sent, sendNonce, nextNonce, delivered, queued, reads, failedReads, rstate, desync, tampered, consumerDone>>
+             /\ UNCHANGED <<sent, sendNonce, nextNonce, delivered, queued, reads, failedReads, rstate, desync, tampered, consumerDone, cattached, cleft>>
 Swap(i) == /\ CanManip /\ i \in 1..(Len(wire) - 1)
            /\ wire' = [wire EXCEPT ![i] = wire[i + 1], ![i + 1] = wire[i]]
            /\ manip' = manip + 1 /\ last' = <<"Swap", i, "-">>
-           /\ UNCHANGED <<sent, sendNonce, nextNonce, delivered, queued, reads, failedReads, rstate, desync, tampered, consumerDone>>
+           /\ UNCHANGED <<sent, sendNonce, nextNonce, delivered, queued, reads, failedReads, rstate, desync, tampered, consumerDone, cattached, cleft>>
 Replay(i) == /\ CanManip /\ i \in 1..Len(wire)
              /\ wire' = SubSeq(wire, 1, i) \o <<wire[i]>> \o SubSeq(wire, i + 1, Len(wire))
              /\ manip' = manip + 1 /\ last' = <<"Replay", i, "-">>
-             /\ UNCHANGED <<sent, sendNonce, nextNonce, delivered, queued, reads, failedReads, rstate, desync, tampered, consumerDone>>
+             /\ UNCHANGED <<sent, sendNonce, nextNonce, delivered, queued, reads, failedReads, rstate, desync, tampered, consumerDone, cattached, cleft>>
 \* a fabricated frame, or a frame of the opposite direction reflected back: right shape, right nonce even,
 \* but it does not authenticate under this direction's key
 Inject(i, n) == /\ CanManip /\ i \in 1..(Len(wire) + 1) /\ n \in 0..MaxRecords
                 /\ wire' = SubSeq(wire, 1, i - 1) \o <<Frame(n, 0, FALSE)>> \o SubSeq(wire, i, Len(wire))
                 /\ manip' = manip + 1 /\ last' = <<"Inject", i, n>>
-                /\ UNCHANGED <<sent, sendNonce, nextNonce, delivered, queued, reads, failedReads, rstate, desync, tampered, consumerDone>>
+                /\ UNCHANGED <<sent, sendNonce, nextNonce, delivered, queued, reads, failedReads, rstate, desync, tampered, consumerDone, cattached, cleft>>
 \* the connection is cut: everything still in flight is gone, the receiver sees connectionLost
 Cut == /\ rstate # "lost"
        /\ wire' = <<>> /\ rstate' = "lost"
        /\ failedReads' = failedReads + reads /\ reads' = 0
-       /\ consumerDone' = IF ConsumerMode /\ consumerDone = "-" THEN "err" ELSE consumerDone
+       /\ consumerDone' = IF (ConsumerMode \/ cattached) /\ consumerDone = "-" THEN "err" ELSE consumerDone
+       /\ UNCHANGED <<cattached, cleft>>          \* (the code does not detach a consumer at the loss: its Deferred fails, that is all)
        /\ last' = <<"Cut", 0, "-">>
        /\ UNCHANGED <<sent, sendNonce, nextNonce, delivered, queued, desync, manip, tampered>>
 
@@ -91,25 +97,30 @@ Recv ==
   /\ LET f == Head(wire) IN
      /\ wire' = Tail(wire)
      /\ IF rstate = "hung up" \/ desync
-        THEN UNCHANGED <<nextNonce, delivered, queued, reads, rstate, desync, tampered, consumerDone>>
+        THEN UNCHANGED <<nextNonce, delivered, queued, reads, rstate, desync, tampered, consumerDone, cattached, cleft>>
         ELSE IF f.len = "bad"
         THEN desync' = TRUE /\ tampered' = TRUE
-             /\ UNCHANGED <<nextNonce, delivered, queued, reads, rstate, consumerDone>>
+             /\ UNCHANGED <<nextNonce, delivered, queued, reads, rstate, consumerDone, cattached, cleft>>
         ELSE IF Deliverable(f)
         THEN /\ nextNonce' = nextNonce + 1
              /\ IF ConsumerMode
                 THEN /\ delivered' = Append(delivered, f.pay)
                      /\ consumerDone' = IF Len(delivered) + 1 = MaxRecords THEN "ok" ELSE consumerDone
-                     /\ UNCHANGED <<queued, reads>>
+                     /\ UNCHANGED <<queued, reads, cattached, cleft>>
+                ELSE IF cattached
+                     \* the attached consumer is written this record; with its last byte it is done and detached
+                     THEN /\ delivered' = Append(delivered, f.pay) /\ cleft' = cleft - 1
+                          /\ cattached' = (cleft > 1) /\ consumerDone' = IF cleft = 1 THEN "ok" ELSE consumerDone
+                          /\ UNCHANGED <<queued, reads>>
                 ELSE IF reads > 0 /\ queued = <<>>
-                     THEN delivered' = Append(delivered, f.pay) /\ reads' = reads - 1 /\ UNCHANGED <<queued, consumerDone>>
-                     ELSE queued' = Append(queued, f.pay) /\ UNCHANGED <<delivered, reads, consumerDone>>
+                     THEN delivered' = Append(delivered, f.pay) /\ reads' = reads - 1 /\ UNCHANGED <<queued, consumerDone, cattached, cleft>>
+                     ELSE queued' = Append(queued, f.pay) /\ UNCHANGED <<delivered, reads, consumerDone, cattached, cleft>>
              /\ UNCHANGED <<rstate, desync, tampered>>
         \* (the nonce is compared - and the expected nonce advanced - before SecretBox.decrypt is tried: a frame that carries the
         \* right nonce and does not authenticate still moves next_receive_nonce; the connection is down either way)
         ELSE /\ rstate' = "hung up" /\ tampered' = TRUE
              /\ nextNonce' = IF f.nonce = nextNonce THEN nextNonce + 1 ELSE nextNonce
-             /\ UNCHANGED <<delivered, queued, reads, desync, consumerDone>>
+             /\ UNCHANGED <<delivered, queued, reads, desync, consumerDone, cattached, cleft>>
   /\ last' = <<"Recv", 0, "-">>
   /\ UNCHANGED <<sent, sendNonce, failedReads, manip>>
 
@@ -117,22 +128,37 @@ Recv ==
 \* is still the application's: receive_record() hands it over also when it is called after the loss (queue first, as always).
 \* (a receive_record() issued after the connection is gone *with nothing queued* is outside the statement: it never fires in
 \* the code; not modelled)
-Read == /\ ~ConsumerMode /\ reads + failedReads + Len(delivered) < MaxReads /\ (rstate # "lost" \/ queued # <<>>)
+Read == /\ ~ConsumerMode /\ ~cattached /\ reads + failedReads + Len(delivered) < MaxReads /\ (rstate # "lost" \/ queued # <<>>)
         /\ IF queued # <<>>
            THEN delivered' = Append(delivered, Head(queued)) /\ queued' = Tail(queued) /\ UNCHANGED <<reads, failedReads>>
            ELSE reads' = reads + 1 /\ UNCHANGED <<delivered, queued, failedReads>>
         /\ last' = <<"Read", 0, "-">>
-        /\ UNCHANGED <<sent, wire, sendNonce, nextNonce, rstate, desync, manip, tampered, consumerDone>>
+        /\ UNCHANGED <<sent, wire, sendNonce, nextNonce, rstate, desync, manip, tampered, consumerDone, cattached, cleft>>
 
 \* after "hung up" the transport closes; the receiver then sees connectionLost
 LoseAfterHangup == /\ rstate = "hung up"
                    /\ rstate' = "lost" /\ wire' = <<>>
                    /\ failedReads' = failedReads + reads /\ reads' = 0
-                   /\ consumerDone' = IF ConsumerMode /\ consumerDone = "-" THEN "err" ELSE consumerDone
+                   /\ consumerDone' = IF (ConsumerMode \/ cattached) /\ consumerDone = "-" THEN "err" ELSE consumerDone
+                   /\ UNCHANGED <<cattached, cleft>>
                    /\ last' = <<"Lose", 0, "-">>
                    /\ UNCHANGED <<sent, sendNonce, nextNonce, delivered, queued, desync, manip, tampered>>
 
-Next == Send \/ Recv \/ Read \/ Cut \/ LoseAfterHangup
+\* Mixed: the application - sequential: nothing of its own outstanding - attaches a consumer that expects the bytes of the next k
+\* records (connectConsumer / writeToFile).  What is already queued goes to it first, oldest first, and no further than it expects:
+\* a consumer that expects nothing is done at once and takes nothing - the record waiting behind it is the next read's.
+MinOf2(a, b) == IF a < b THEN a ELSE b
+Attach(k) == /\ Mixed /\ ~cattached /\ reads = 0 /\ rstate = "records" /\ ~desync
+             /\ Len(delivered) + Len(queued) + k <= MaxRecords
+             /\ LET m == MinOf2(k, Len(queued)) IN
+                /\ delivered' = delivered \o SubSeq(queued, 1, m)
+                /\ queued' = SubSeq(queued, m + 1, Len(queued))
+                /\ cattached' = (m < k) /\ cleft' = k - m
+                /\ consumerDone' = IF m = k THEN "ok" ELSE "-"
+             /\ last' = <<"Attach", k, "-">>
+             /\ UNCHANGED <<sent, wire, sendNonce, nextNonce, reads, failedReads, rstate, desync, manip, tampered>>
+
+Next == Send \/ Recv \/ Read \/ Cut \/ LoseAfterHangup \/ (\E k \in 0..2 : Attach(k))
         \/ (\E i \in 1..(MaxRecords + MaxManip + 1) :
                Delete(i) \/ Swap(i) \/ Replay(i) \/ (\E w \in {"len", "nonce", "body", "tag"} : Flip(i, w))
                \/ (\E n \in 0..MaxRecords : Inject(i, n)))
@@ -148,8 +174,11 @@ HungUpWhenBad == (tampered /\ ~desync) => rstate \in {"hung up", "lost"}
 \* pending reads fail when the connection is lost
 NoReadLeftBehind == rstate = "lost" => reads = 0
 \* ... and the Deferred of a consumer that is still waiting for bytes fails too
-ConsumerNotLeftBehind == (ConsumerMode /\ rstate = "lost") => consumerDone # "-"
+ConsumerNotLeftBehind == ((ConsumerMode \/ cattached) /\ rstate = "lost") => consumerDone # "-"
+\* Mixed: a consumer is attached exactly while it still expects something, and never together with an outstanding read
+AttachedSane == /\ cattached <=> (cleft > 0)
+                /\ (cattached /\ rstate # "lost") => (reads = 0 /\ consumerDone = "-" /\ queued = <<>>)
 \* what arrived intact before the connection went away can still be read afterwards (nothing is lost *from the queue*)
 QueuedObtainable == [][(last'[1] = "Read" /\ queued # <<>>) => delivered' = Append(delivered, Head(queued))]_vars
-ConsumerTruth == (consumerDone = "ok") => delivered = sent /\ Len(sent) = MaxRecords
+ConsumerTruth == (ConsumerMode /\ consumerDone = "ok") => delivered = sent /\ Len(sent) = MaxRecords
 ====
